@@ -25,6 +25,7 @@ EXPLANATION = (
     "computed from the class table of common.py, attempt increment paired with every produce send, limit test "
     "dominating the retry timer, multiplicative back-off with a constant > 1 and unconditional reset."
     ' Also: once the produce request was made the send stage returns its Deferred on every path (R1).'
+    " The attempt counter only grows between two completions; every function that lets the interval grow waits the current interval first; every payload is marked failed only on a path a FailedPayloadsError cannot take (case analysis by failure class)."
 )
 SHARED = [('C01', ['R4'], 'with acknowledgements disabled exactly the payloads handed to their broker are reported done: a failed one is not reported and then re-sent'), ('C07', ['R3', 'R5'], 'failed payloads are attributed to the right request'), ('C06', ['R5'], 'a produce attempt that timed out is not written later alongside its retry')]
 ASSUMPTIONS = [
